@@ -9,6 +9,8 @@ if [ ! -x /verif/bin/gowp ] || [ -n "$(find /verif/gowp -name '*.go' -newer /ver
 fi
 /verif/bin/gowp check -prop "$1" -tier "${2:-quick}"
 rc=$?
+# bounded stand-ins for assumed contracts (labelled bounded in the evidence)
+python3 /verif/bounded/run.py "$1" "${2:-quick}" || rc=1
 if [ "${2:-quick}" = thorough ] && [ $rc -eq 0 ]; then
 	# second part of the thorough tier: the must-fail mutants recorded for
 	# this property (sensitivity of the obligations); informational
